@@ -4,7 +4,7 @@ package main
 // C09 driver: write -> pose -> read through the normal locating path.
 //   pose  : content c is written by the real writer of `sym` (QR, DM or one of the nine 1-D symbologies) at its natural size
 //           (1-D: requested height h); the written image is posed - mirrored (transposed), upscaled by `scale`, padded by
-//           `pad` white pixels per side, turned clockwise by `rot` degrees (the exact pixel map of spec/Pose.tla) - and read by
+//           (QR: optional MARGIN hint mg) `pad` white pixels per side, turned clockwise by `rot` degrees (the exact pixel map of spec/Pose.tla) - and read by
 //           gozxing.NewBinaryBitmapFromImage(img) -> Reader.Decode(nil or TRY_HARDER), no PURE_BARCODE.  Recorded: the
 //           written row as pixel runs (1-D), the dimensions, text, error kind, ORIENTATION metadata; for QR additionally
 //           the mirrored flag of DecoderResult.GetOther() on the detector -> decoder path.
@@ -36,6 +36,7 @@ type ev struct {
 	Rd    string  `json:"rd"` // own | multi
 	Th    int     `json:"th"` // TRY_HARDER
 	H     int     `json:"h"`  // requested height of a 1-D rendering
+	Mg    int     `json:"mg"` // QR: MARGIN hint (quiet zone in modules), -1 = the writer's default
 	Pad   int     `json:"pad"`
 	Scale int     `json:"scale"`
 	Rot   int     `json:"rot"`
@@ -215,6 +216,9 @@ func write(e *ev) (*gozxing.BitMatrix, error) {
 		hs := map[gozxing.EncodeHintType]interface{}{}
 		if e.Ec >= 1 && e.Ec <= 4 {
 			hs[gozxing.EncodeHintType_ERROR_CORRECTION] = levels[e.Ec]
+		}
+		if e.Mg >= 0 {
+			hs[gozxing.EncodeHintType_MARGIN] = e.Mg
 		}
 		return qrcode.NewQRCodeWriter().Encode(content, gozxing.BarcodeFormat_QR_CODE, 0, 0, hs)
 	case "DM":
